@@ -490,13 +490,20 @@ def check_C16(ctx):
 def check_C19(ctx):
     summ = check_curve(ctx, "C19")
     report_mismatches(ctx, summ, "position along the curve differs from the CurveLength!PosSeg specification")
-    ctx.assumptions += ["lattice sub-domain of C16; progress values k/8 for k in -2..10 and exact vertex fractions; NaN/subnormal progress not covered"]
+    # the statement's relations and PosSeg (first index reaching d, by linear scan) on real curves with many points
+    summ = harness(ctx, ["curve", "posrel", "--iters", "600000" if ctx.tier == "thorough" else "60000"], name="curve-posrel", timeout=3600)
+    report_mismatches(ctx, summ, "position along a real curve breaks the statement's relations / is not at the first index reaching the distance")
+    ctx.assumptions += ["MODEL: lattice sub-domain of C16; progress values k/8 for k in -2..10 and exact vertex fractions",
+                        "on real curves (seeded random control-point lists with every segment type, up to hundreds of path points, four modes, "
+                        "natural / cut / extended / tiny requested lengths) the relations are evaluated within f32 resolution for progress values "
+                        "-1, -0, 0, subnormals, k/16, 1 +- epsilon, 2.5, +-infinity, 24 random values and exact vertex fractions; NaN progress is not covered"]
     return finish(ctx, "model_checking",
                   "for every lattice curve of the C16 enumeration (zero-length, duplicate-vertex, truncated and extended curves, the "
                   "extra-length-entry shape) TLC computes the clamped distance, segment index and interpolation weight for 13 progress values "
                   "and checks clamping / end-point facts; the real position_at, progress_to_dist, idx_of_dist, interpolate_vertices and their "
                   "BorrowedCurve twins are compared with them in four modes, plus the vertex-at-its-length and arc-length (Lipschitz) relations "
-                  "on the real values; non-trivial = distinct cases whose adjusted path has at least two points")
+                  "on the real values; the same relations and PosSeg's index rule (by linear scan) are evaluated on real many-point curves "
+                  "with curved segments; non-trivial = distinct cases whose adjusted path has at least two points")
 
 
 # ----------------------------------------------------------------------------
@@ -524,7 +531,10 @@ def check_C18(ctx):
     summ = harness(ctx, ["cache", "replay"], cases_file=cases, name="cache-replay", timeout=3600)
     report_mismatches(ctx, summ, "a curve depends on the API used or on what the buffers/cache held before")
     ctx.assumptions += ["F(input) is realised as Curve::new on fresh buffers (purity = equality with the fresh computation)",
-                        "pool of 7 control-point lists (empty, single point, linear, two-segment, bezier+catmull, perfect, small bezier) x 3 length choices"]
+                        "the abstract pool of 7 inputs x 3 length choices is replayed under three concretisations: (a) empty, single point, linear, "
+                        "two-segment, bezier+catmull, perfect, small bezier x {none, 25, 500}; (b) Catmull, 14-point bezier, degree-3 b-spline, "
+                        "collinear perfect curve (bezier fallback) x {none, -1 (early return), 0.001}; (c) an arc beyond 1000 sub-points "
+                        "(fallback), linear+Catmull, duplicated end, 25-point bezier x {none, 100000, 61.5}; modes rotate"]
     return finish(ctx, "model_checking",
                   "TLC enumerates every sequence of {owned, borrowed, path cache (3 accessors), mutate points, mutate length, clear} "
                   "operations up to the bound over the input pool sharing one buffer set and one SliderPath, with invariants Pure and "
